@@ -3,6 +3,8 @@ import CstructModel.Expr
 import CstructModel.Proto
 import CstructModel.Hexdump
 import CstructModel.Enum
+import CstructModel.Pointer
+import CstructModel.Union
 open Cstruct Cstruct.Proto
 
 def pairs? (s : Sexp) : Option (List (String × Int)) :=
@@ -161,6 +163,47 @@ def handle (s : Sexp) : Sexp :=
       | .ok vals => .list (.atom "ok" :: vals.map fun (k, v) => .list [.str k, .atom (toString v)])
       | .error e => .list [.atom "err", .atom e.name]
     | _, _ => .list [.atom "bad-args"]
+  -- (deref cfg T hexdata addr hasStream): dereference a pointer to T bound to the stream (or to no stream)
+  | .list [.atom "deref", c, t, d, a, hs] =>
+    match parseCfg c, parseTy t, d.hexBytes?, a.int? with
+    | .ok cfg, .ok ty, some data, some addr =>
+      let ptr : Pointer.Ptr := { addr := addr, stream := if hs.nat? == some 0 then none else some data, target := ty, cache := none }
+      match Pointer.deref cfg ptr 0 with
+      | .ok (v, ptr', _) =>
+        -- second dereference must give the same
+        match Pointer.deref cfg ptr' 7 with
+        | .ok (v2, _, q) => .list [.atom "ok", valToSexp v, valToSexp v2, .atom (toString q)]
+        | .error e => errSexp e
+      | .error e => errSexp e
+    | _, _, _, _ => .list [.atom "bad-args"]
+  -- (unionhist cfg U hexdata ((k V) ...)): parse the union at 0, then apply the assignments; the state after every step
+  | .list [.atom "unionhist", c, t, d, .list ops] =>
+    match parseCfg c, parseTy t, d.hexBytes? with
+    | .ok cfg, .ok (.union al fs), some data =>
+      match (Ty.union al fs).size cfg with
+      | none => .list [.atom "err", .atom "NotImplementedError"]
+      | some sz =>
+        let showSt (s : Union.UState) : Sexp :=
+          .list [Sexp.ofBytes s.buf, .list (valsToSexp s.vals),
+            match write cfg (.union al fs) (.union s.buf s.vals) 0 with
+            | .ok bs => Sexp.ofBytes bs
+            | .error e => errSexp e]
+        match Union.parse cfg fs sz data 0 with
+        | .error e => errSexp e
+        | .ok (s0, _) =>
+          let rec go (s : Union.UState) (ops : List Sexp) (acc : List Sexp) : List Sexp :=
+            match ops with
+            | [] => acc.reverse
+            | Sexp.list [k, v] :: rest =>
+              match k.nat?, parseVal v with
+              | some kk, .ok vv =>
+                match Union.assign cfg fs s kk vv with
+                | .ok s' => go s' rest (showSt s' :: acc)
+                | .error e => (errSexp e :: acc).reverse
+              | _, _ => (Sexp.list [.atom "bad-op"] :: acc).reverse
+            | _ => (Sexp.list [.atom "bad-op"] :: acc).reverse
+          .list (.atom "ok" :: showSt s0 :: go s0 ops [])
+    | _, _, _ => .list [.atom "bad-args"]
   | _ => .list [.atom "bad-op"]
 
 partial def loop (h out : IO.FS.Stream) : IO Unit := do
